@@ -56,6 +56,15 @@ def build(rng, typ, r, c, form, nf, tmpdir, k):
     # the extra reflect through the handle (handle index 3 = first user parameter)
     S = [calsim.embed(p, [vec_port - 1], [[sc.vec[1][f]]], sc.others) for f in range(nf)]
     sc.lines.append('cal add %d single_reflect %s %d %d' % (sc.n, sc.mtext(sc.meas(S)), 3, vec_port))
+    if p >= 2:
+        # a fully known non-reciprocal standard (isolator: transmission one way only), either way round, any port pair
+        t = calsim.rc(rng, 0.6) + 0.3
+        sc.lines.append('cal make_scalar 0 %s' % vlib.c2h(t))          # handle 4
+        i, j = rng.sample(range(1, p + 1), 2)
+        if rng.random() < 0.5:
+            sc.add_line_handles(i, j, (calsim.MATCH, calsim.MATCH, 4, calsim.MATCH), [[[0, 0], [t, 0]]] * nf)
+        else:
+            sc.add_line_handles(i, j, (calsim.MATCH, 4, calsim.MATCH, calsim.MATCH), [[[0, t], [0, 0]]] * nf)
     sc.solve().add_calibration()
     sc.dut = sc.random_dut()
     sc.path = os.path.join(tmpdir, 'c%d.vnacal' % k)
